@@ -2,13 +2,15 @@
 """usage: seed_record.py Cxx 'summary' 'needs' 'tests the sub-agent ran' 'result'"""
 import sys, json, os, shutil
 pid, summary, needs, tests, result = sys.argv[1:6]
-d = '/verif/seeded/%s' % pid
+src = sys.argv[6] if len(sys.argv) > 6 else '/tmp/seed_%s' % pid
+suffix = sys.argv[7] if len(sys.argv) > 7 else ''
+d = '/verif/seeded/%s%s' % (pid, suffix)
 os.makedirs(d, exist_ok=True)
 for f in ('patch.diff', 'demo_seed.py'):
-    shutil.copy('/tmp/seed_%s/%s' % (pid, f), d)
+    shutil.copy('%s/%s' % (src, f), d)
 json.dump({'property': pid, 'summary': summary, 'needs': needs,
            'author': 'fresh sub-agent given only the property text and a scratch worktree',
            'confirmed': ['demo_seed.py exits non-zero with the patch and 0 without (re-run by the lead in the scratch worktree)', tests],
-           'ran': 'VERIF_REPO=/tmp/seed_%s ./check %s --tier quick' % (pid, pid), 'result': result},
+           'ran': 'VERIF_REPO=%s ./check %s --tier quick' % (src, pid), 'result': result},
           open(d + '/meta.json', 'w'), indent=1)
 print('recorded', d)
